@@ -93,6 +93,11 @@ func fromRequest(v ssa.Value) bool {
 func runC16(c *Ctx) {
 	c.R.Rule("RS-no-request-time-state", "request handling writes no state that outlives the request (package-level variables, objects built at start-up, constructor variables captured by handlers) declared in the packages implementing this property", 1)
 	runStateless(c, "RS-no-request-time-state", "pkg/requests/util", "pkg/ip", "pkg/apis/middleware")
+	runC16Body(c)
+}
+
+// runC16Body holds C16's own rules; other properties share single rules of it through Report.WithAlias.
+func runC16Body(c *Ctx) {
 	r := c.R
 	r.Rule("R1-header-readers", "closed-world enumeration of request-header reads: forwarding names only in the three accessors; dynamic keys only at reviewed sites", 14)
 	r.Rule("R2-guard-dominance", "header value returned only under IsProxied(req)==true; other uses only behind the guard", 6)
